@@ -3,6 +3,7 @@ package otto
 import (
 	"fmt"
 	"reflect"
+	"sort"
 )
 
 func (rt *runtime) newGoMapObject(value reflect.Value) *object {
@@ -84,9 +85,30 @@ func goMapGetOwnProperty(obj *object, name string) *property {
 
 func goMapEnumerate(obj *object, all bool, each func(string) bool) {
 	goObj := obj.value.(*goMapObject)
-	keys := goObj.value.MapKeys()
-	for _, key := range keys {
-		if !each(toValue(key).String()) {
+	// Go's map order is random and differs from call to call: enumerate in a fixed order,
+	// numeric keys by value, all others by name.
+	type entry struct {
+		key  reflect.Value
+		name string
+	}
+	var entries []entry
+	for _, key := range goObj.value.MapKeys() {
+		entries = append(entries, entry{key, toValue(key).String()})
+	}
+	sort.Slice(entries, func(i, j int) bool {
+		switch a, b := entries[i].key, entries[j].key; a.Kind() {
+		case reflect.Int, reflect.Int8, reflect.Int16, reflect.Int32, reflect.Int64:
+			return a.Int() < b.Int()
+		case reflect.Uint, reflect.Uint8, reflect.Uint16, reflect.Uint32, reflect.Uint64:
+			return a.Uint() < b.Uint()
+		case reflect.Float32, reflect.Float64:
+			return a.Float() < b.Float()
+		default:
+			return entries[i].name < entries[j].name
+		}
+	})
+	for _, e := range entries {
+		if !each(e.name) {
 			return
 		}
 	}
